@@ -88,7 +88,7 @@ impl StructParser {
         };
 
         Some(StructInfo {
-            name: item_struct.ident.to_string(),
+            name: item_struct.ident.unraw().to_string(),
             fields,
             file_path: file_path.to_string_lossy().to_string(),
             is_enum: false,
@@ -163,7 +163,7 @@ impl StructParser {
             .collect();
 
         Some(StructInfo {
-            name: item_enum.ident.to_string(),
+            name: item_enum.ident.unraw().to_string(),
             fields,
             file_path: file_path.to_string_lossy().to_string(),
             is_enum: true,
@@ -229,19 +229,27 @@ impl StructParser {
                     .segments
                     .iter()
                     .map(|segment| {
-                        let ident = segment.ident.to_string();
+                        // `r#Kind` names the type `Kind`
+                        let ident = segment.ident.unraw().to_string();
                         match &segment.arguments {
                             syn::PathArguments::None => ident,
                             syn::PathArguments::AngleBracketed(args) => {
+                                // lifetimes and constants are no part of the serialised shape
                                 let generic_args: Vec<String> = args
                                     .args
                                     .iter()
-                                    .map(|arg| match arg {
-                                        syn::GenericArgument::Type(t) => Self::type_to_string(t),
-                                        _ => "unknown".to_string(),
+                                    .filter_map(|arg| match arg {
+                                        syn::GenericArgument::Type(t) => {
+                                            Some(Self::type_to_string(t))
+                                        }
+                                        _ => None,
                                     })
                                     .collect();
-                                format!("{}<{}>", ident, generic_args.join(", "))
+                                if generic_args.is_empty() {
+                                    ident
+                                } else {
+                                    format!("{}<{}>", ident, generic_args.join(", "))
+                                }
                             }
                             syn::PathArguments::Parenthesized(_) => ident, // Function types, not common in structs
                         }
